@@ -39,6 +39,13 @@ package text
 //@   ensures r == (len(prefix) <= len(s) && forall i int :: 0 <= i && i < len(prefix) ==> s[i] == prefix[i])
 //@   assigns nothing
 
+//@ -- the Reader seen through the parsley.Reader interface (spec-level definitions of its pure methods)
+//@ specmethod (r *Reader) Remaining(pos parsley.Pos) (n int) = r.file.len - (int(pos) - r.file.offset)
+//@ specmethod (r *Reader) IsEOF(pos parsley.Pos) (b bool) = int(pos) - r.file.offset >= r.file.len
+//@ specmethod (r *Reader) Pos(cur int) (p parsley.Pos) = parsley.Pos(r.file.offset + cur)
+//@ specmethod (r *Reader) ReaderOK() (b bool) = wfReader(r) && wfCache(r)
+//@ axiom [text-reader-type] parsley.TextReaderType() == typeid[*Reader]()
+
 //@ func (f *File) Len() (r int)
 //@   requires f != nil
 //@   ensures  r == f.len
@@ -55,6 +62,7 @@ package text
 //@   assigns  nothing
 
 //@ func (r *Reader) Pos(cur int) (p parsley.Pos)
+//@   refines parsley.Reader.Pos
 //@   requires wfReader(r) && 0 <= cur && cur <= 1<<60
 //@   ensures  int(p) == r.file.offset + cur
 //@   assigns  nothing
@@ -68,11 +76,13 @@ package text
 //@   assigns nothing
 
 //@ func (r *Reader) Remaining(pos parsley.Pos) (n int)
+//@   refines parsley.Reader.Remaining
 //@   requires wfReader(r) && inFile(r.file, pos)
 //@   ensures  n == r.file.len - (int(pos) - r.file.offset) && 0 <= n
 //@   assigns  nothing
 
 //@ func (r *Reader) IsEOF(pos parsley.Pos) (b bool)
+//@   refines parsley.Reader.IsEOF
 //@   requires wfReader(r) && inFile(r.file, pos)
 //@   ensures  b == (int(pos) - r.file.offset >= r.file.len)
 //@   ensures  b == (int(pos) == r.file.offset + r.file.len)
